@@ -6,6 +6,7 @@ import (
 	"encoding/base32"
 	"encoding/base64"
 	"encoding/hex"
+	"fmt"
 	"regexp"
 	"strings"
 	"testing"
@@ -297,6 +298,34 @@ func runC18(tb ev.TB, p c18Prog) ev.Result {
 			tb.Fatalf("a copy of the entry is stored under %s, the entry under %s", cc, e.GetHash())
 		}
 	}
+	// the sealed entry the writer holds, written again through a codec that has NO key or ANOTHER key, or through the
+	// entry's own ToMultihash (which uses the library's default codec): an application that re-publishes what Append
+	// handed it need not go through the keyed codec. Whatever such a write stores must be opaque as well.
+	for ri, rio := range []iface.IO{nil, noio, otherio} {
+		for _, obj := range []iface.IPFSLogEntry{e, e.Copy()} {
+			rs := fakeipfs.NewStore()
+			var werr error
+			if rio == nil {
+				if ee, ok := obj.(*entry.Entry); ok {
+					_, werr = ee.ToMultihash(ctx, rs.API(), &iface.CreateEntryOptions{Pin: p.Opts&1 != 0})
+				}
+			} else {
+				_, werr = entry.ToMultihashWithIO(ctx, obj, rs.API(), &iface.CreateEntryOptions{Pin: p.Opts&1 != 0}, rio)
+			}
+			_ = werr // a refusal to write is fine: nothing is disclosed
+			for _, c := range rs.Writes() {
+				braw, _ := rs.Raw(c)
+				func() {
+					defer func() {
+						if r := recover(); r != nil {
+							tb.Fatalf("sealed entry written again through codec #%d (0: Entry.ToMultihash, 1: no key, 2: other key): %v", ri, r)
+						}
+					}()
+					checkOpaque(fatalToPanic{tb}, braw, all)
+				}()
+			}
+		}
+	}
 	// no key
 	dn, err := entry.FromMultihashWithIO(ctx, st.API(), e.GetHash(), provider, noio)
 	if err == nil && len(dn.GetNext())+len(dn.GetRefs()) != 0 { // failing to decode also yields no links
@@ -431,3 +460,8 @@ func TestC18(t *testing.T) {
 	c.Rule = "rapid generates entries as in C08 (0-7 predecessors, 0-7 references incl. CIDv0/raw CIDs, binary payloads) written with one of 6 link keys (the library's secretbox keys or, in a quarter of the cases, keys of another make - AES-GCM with 12-byte nonces - behind the same interface) - in a quarter of the cases through a delegating wrapper that embeds the keyed codec - (and written again with generated create options: pinned and/or hashed before signing), plus a small log (1-8 appends with pointer counts 0..16) written with that key. Oracles: the stored bytes contain no binary or textual form (raw CID bytes, multihash, digest, hex, base32/36/58/64 with and without multibase prefix) of any predecessor/reference or of any earlier block of the log - nor a fragment of one (16 characters of a textual form, 10 bytes of a binary form), be it in the bytes of the block or in what its text fields carry once base64 or hex is taken off - and decode to a node without links; a reader holding the same key (separately constructed codec) recovers identical ordered lists, verifies, merges and loads the whole log; readers with no key or another key - their codecs built from scratch or, in a third of the cases, derived from the writer's codec object with ApplyOptions - get an error or empty lists and load at most the entry itself. Non-trivial = entry with >= 1 predecessor and >= 1 reference; distinct = distinct program."
 	ev.Check(t, "C18", genC18, runC18)
 }
+
+// fatalToPanic turns a failing sub-check into a panic so the caller can add context before failing the case.
+type fatalToPanic struct{ ev.TB }
+
+func (f fatalToPanic) Fatalf(format string, args ...any) { panic(fmt.Sprintf(format, args...)) }
